@@ -1291,6 +1291,11 @@ func (vc *VC) modOfBlocks(fn *ssa.Function, blocks map[*ssa.BasicBlock]bool) (ma
 						all = true
 					}
 				default:
+					// a call through a function value: everything, unless the function under proof
+					// declares that its callbacks run under the world lock (lockedcallbacks)
+					if fs := vc.L.Con.Funcs[vc.Top.RelString(vc.L.SPkg.Pkg)]; fs != nil && fs.Flags["lockedcallbacks"] {
+						continue
+					}
 					all = true
 				}
 			}
